@@ -86,6 +86,8 @@ def hook(nm, ctx, *a):
         el = elid(a[0])
     raised = N[0] in FAULTS
     rec(k="hook", name=nm, el=el, tag=tag, pos=pos, raised=raised)
+    if [nm, el] in CASE.get("skips", []):
+        a[0].skip("excluded by hook")
     if raised:
         if CASE.get("fault_kind") == "assert":
             raise AssertionError("hookfault")
@@ -148,7 +150,8 @@ def run_cli(case, timeout=120):
                 fh.write(text)
         by_loc = [[["f%d.feature" % fi, line], el] for (fi, line), el in R.by_loc.items()]
         with open(os.path.join(d, "case.json"), "w") as fh:
-            json.dump({"flat": flat, "by_loc": by_loc, "fault": case.get("fault", [0, 0]), "fault_kind": case.get("fault_kind", "exc")}, fh)
+            json.dump({"flat": flat, "by_loc": by_loc, "fault": case.get("fault", [0, 0]), "fault_kind": case.get("fault_kind", "exc"),
+                       "skips": [list(x) for x in (prog.get("skips") or [])]}, fh)
         with open(os.path.join(d, "verif_child.py"), "w") as fh:
             fh.write(CHILD)
         with open(os.path.join(d, "features", "environment.py"), "w") as fh:
